@@ -18,7 +18,8 @@ EVIDENCE = dict(
          "through a file, with targets that have other inputs, and after an unrelated failed load. MC_RVSystem (focus multictl) "
          "is simulated and its behaviours (attach, connect / disconnect the MultiCtl, set mappings, save+load, feed) are replayed "
          "on real objects: a feed reaches exactly the live out slots whose mapping names a controller. non-trivial = a feed that delivers more than one distinct value, or a refusal."
-         " Macros with targets named in reversed / rotated order (link i goes with mapping i); each feed job re-feeds six inputs after writing the target by hand (clause same-input-fed-again-after-a-hand-write-not-delivered).",
+         " Macros with targets named in reversed / rotated order (link i goes with mapping i); each feed job re-feeds six inputs after writing the target by hand (clause same-input-fed-again-after-a-hand-write-not-delivered)."
+         " Feed jobs include MetaModule user-defined controllers (mapped onto an embedded 0..32768 controller) as targets.",
     explanation="value axis enumerated completely for each sampled parameter tuple")
 
 GAINS = [0, 1, 100, 255, 256, 257, 333, 512, 1024]
